@@ -19,7 +19,7 @@ func init() {
 		Level: "other",
 		Explanation: "Soundness of a definite TryEval answer rests on three gates that are visible in the code, and these are decided: (R-PROXYGATE) in TryEval's own code (its static-call closure) every dynamic Operator call other than the cond arm's is the one inside executeOperatorProxy, and that call executes only on the false edge of contains(params, DNE): an operator never sees an unavailable operand (otherwise `(= x 1)` with x unavailable would answer a definite false); the operator's result and error are returned unchanged; " +
 			"(R-SHORTCUT) executeOperatorProxy returns constant false only under isAndOpNode(n) && contains(params,false), constant true only under isOrOpNode(n) && contains(params,true), DNE only under contains(params,DNE); (R-CACHEDGATE) every VariableFetcher.Get in that closure executes only on the true edge of Cached on the same fetcher with the same (varKey,strKey) of one node, and the other edge returns (DNE, nil); " +
-			"(R-PAIR) the polarity tables agree: matchesShortCircuit (andOp: res==false, orOp: res==true, else res==DNE), calAndSetShortCircuitForRCO (and-parent: andOp, or-parent: orOp), calAndSetShortCircuit (and-parent: scIfFalse, or-parent: scIfTrue), and the flag bit groups are disjoint (R-BITS). (R-STEPRES / R-STEPARGS on TryEval) per arm the pushed value is exactly the node literal / fetchVariableValueProxy(ctx, curt)#0 / executeOperatorProxy(ctx, curt, operands)#0 applied in that arm; the operand vector is built exactly as in Eval (sibling agreement); fast-arm slot k is getNodeValueProxy(ctx, nodes[i+1+k])#0 and nothing else. (R-CACHEDGET) for every fetcher of the package, Cached == true excludes every error condition of Get: a variable reported as available can be fetched. NOT decided: the climbing loop (matchesShortCircuit/parentNode/stack reset), i.e. that a decided value is attributed to the right ancestor.",
+			"(R-PAIR) the polarity tables agree: matchesShortCircuit (andOp: res==false, orOp: res==true, else res==DNE), calAndSetShortCircuitForRCO (and-parent: andOp, or-parent: orOp), calAndSetShortCircuit (and-parent: scIfFalse, or-parent: scIfTrue), and the flag bit groups are disjoint (R-BITS). (R-STEPRES / R-STEPARGS on TryEval) per arm the pushed value is exactly the node literal / fetchVariableValueProxy(ctx, curt)#0 / executeOperatorProxy(ctx, curt, operands)#0 applied in that arm; the operand vector is built exactly as in Eval (sibling agreement); fast-arm slot k is getNodeValueProxy(ctx, nodes[i+1+k])#0 and nothing else. (R-CACHEDGET) for every fetcher of the package, Cached == true excludes every error condition of Get: a variable reported as available can be fetched. NOT decided: the climbing loop (matchesShortCircuit/parentNode/stack reset), i.e. that a decided value is attributed to the right ancestor. (R-CONTAINS) contains(list, x), which the proxy decides with, is true only under list[i] == x and false only after the whole list.",
 		Run:       runC04,
 		Witnesses: c04Witnesses,
 	})
@@ -568,11 +568,13 @@ func runC04(w *World, r *Report) {
 	ruleStepArgs(w, r, ruleStepRes(w, r, "(*Expr).TryEval"))
 	ruleCachedGet(w, r)
 	ruleFastProxy(w, r)
+	ruleContains(w, r)
 }
 
 // ---- C05 ----------------------------------------------------------------------
 
 func runC05(w *World, r *Report) {
+	ruleContains(w, r)
 	r.Rule("R-DNE-NOT-ERR", "the not-cached edge of the variable proxy returns the DNE marker with a nil error", 1)
 	ruleProxyTable(w, r, false, true, false)
 	ruleCachedGate(w, r)
@@ -768,6 +770,10 @@ func ruleFastProxy(w *World, r *Report) {
 var _ = types.Typ
 
 var c04Witnesses = append(stepWitnessesTry, []Witness{
+	{Name: "contains-scan-leaves-after-eight", Rule: "R-CONTAINS", Edits: []Edit{
+		{File: "util.go", Old: "	for _, v := range params {\n		if v == target {\n			return true\n		}\n	}\n	return false\n}", New: "	for i, v := range params {\n		if i > 7 {\n			break\n		}\n		if v == target {\n			return true\n		}\n	}\n	return false\n}"}}},
+	{Name: "contains-true-for-nil-element", Rule: "R-CONTAINS", Edits: []Edit{
+		{File: "util.go", Old: "	for _, v := range params {\n		if v == target {\n			return true\n		}\n	}\n	return false\n}", New: "	for _, v := range params {\n		if v == target || v == nil {\n			return true\n		}\n	}\n	return false\n}"}}},
 	{Name: "operator-before-dne-test", Rule: "R-PROXYGATE", Edits: []Edit{
 		{File: "engine.go", Old: "	case contains(params, DNE):\n		return DNE, nil\n	}\n	return n.operator(ctx, params)", New: "	}\n	res, err := n.operator(ctx, params)\n	if err != nil && contains(params, DNE) {\n		return DNE, nil\n	}\n	return res, err"}}},
 	{Name: "or-node-returns-false-shortcut", Rule: "R-SHORTCUT", Edits: []Edit{
@@ -806,3 +812,62 @@ var c05Witnesses = append(wave4WitnessesC05, []Witness{
 	{Name: "benign-tryevalbool-switch", Benign: true, Edits: []Edit{
 		{File: "engine.go", Old: "	if res == DNE {\n		return false, ErrDNE\n	}\n\n	b, ok := res.(bool)\n	if !ok {\n		return false, errors.New(\"invalid result type error\")\n	}\n	return b, nil\n}", New: "	if res != DNE {\n		if b, ok := res.(bool); ok {\n			return b, nil\n		}\n		return false, errors.New(\"invalid result type error\")\n	}\n	return false, ErrDNE\n}"}}},
 }...)
+
+// ruleContains: the membership helper the proxies (and the generator's oracle) decide with — `contains(list, x)` is
+// true exactly when some element equals x: `true` is returned only under element == x for an element of a loop over
+// the whole list, `false` only when that loop ran to its end.
+func ruleContains(w *World, r *Report) {
+	const rule = "R-CONTAINS"
+	r.Rule(rule, "contains(list, x) returns true only under list[i] == x and false only after the loop over the whole list", 2)
+	fn := w.MustFn(r, rule, "contains")
+	if fn == nil || len(fn.Params) != 2 {
+		return
+	}
+	name := w.Name(fn)
+	list, target := ssa.Value(fn.Params[0]), ssa.Value(fn.Params[1])
+	var hdrs []*ssa.BasicBlock
+	var falseRets []*ssa.Return
+	for _, ret := range allReturns(fn) {
+		pos := w.InstrPos(ret)
+		b, isConst := constBool(ret.Results[0])
+		if !isConst {
+			r.Fail(rule, pos, name, "return "+describe(ret.Results[0]), "the answer is not a constant decided by the scan")
+			continue
+		}
+		if !b {
+			falseRets = append(falseRets, ret)
+			continue
+		}
+		found := false
+		for _, f := range factsAt(ret.Block()) {
+			bo, ok := f.Cond.(*ssa.BinOp)
+			if !ok || bo.Op != token.EQL || !f.Truth {
+				continue
+			}
+			x, y := bo.X, bo.Y
+			if y != target {
+				x, y = y, x
+			}
+			if y != target {
+				continue
+			}
+			if h, _, okE := rangeElemOf(x, list); okE {
+				found = true
+				hdrs = append(hdrs, h)
+			}
+		}
+		r.Check(found, rule, pos, name, "return true", "only under list[i] == x for an element of the loop over the list", "true is returned without an element having been found equal to x")
+	}
+	for _, ret := range falseRets {
+		complete := false
+		for _, h := range hdrs {
+			if edgeDominates(h, 1, ret.Block()) {
+				complete = true
+			}
+		}
+		r.Check(complete, rule, w.InstrPos(ret), name, "return false", "only when the loop over the whole list ran to its end", "false is returned although not every element was compared: a deciding operand further back is missed")
+	}
+	if len(falseRets) == 0 {
+		r.Unresolved(rule, "contains has no `false` answer")
+	}
+}
